@@ -378,6 +378,8 @@ class Interp:
             if self.ctx.decide(v.isnone, "str(opt)"):
                 return "None"
             return self.to_str(v.val)
+        if isinstance(v, TheoryObj) and (v.theory, "__str__") in self.reg.theory_methods:
+            return self.reg.theory_methods[(v.theory, "__str__")](self, v, [], {})
         # anything else: an unconstrained string
         return SStr(self.ctx.fresh_str("str"))
 
@@ -727,6 +729,11 @@ class Interp:
                         if srca.startswith("Optional[") and srca[9:-1] in mk1:
                             self.ctx.use(f"stale-state: {nm} not set by the harness -> arbitrary (left by an earlier call)")
                             return SOpt(c.fresh_bool(nm + "_none"), mk1[srca[9:-1]]())
+                        # any other annotated field (tuples, dicts, lists, objects): an arbitrary value left by an earlier call;
+                        # indexing / comparing / listing it yields arbitrary results (theory 'stale')
+                        self.ctx.use(f"stale-state: {nm} not set by the harness -> arbitrary value of unknown shape (left by an earlier call)")
+                        stale = TheoryObj("stale", label=nm, fields={"__overloads__": True})
+                        return SOpt(c.fresh_bool(nm + "_none"), stale) if srca.startswith("Optional[") else stale
                     try:
                         lit = ast.literal_eval(val)
                     except Exception:
